@@ -763,7 +763,63 @@ def _tbl_fresh_per_cell(form, c0, r0, vals):
     return [_raw_eval(ExcelCompiler(filename=path), a) for a in total + [dep]]
 
 
+_TBL2_FILES = {}
+
+
+def _tbl2_file(c0, r0, vals):
+    """one workbook, two sheets, a table at the SAME coordinates on each (columns in the other order on sheet Two),
+    the same formula text =[@Qty]*2 in every row of both Total columns"""
+    key = (c0, r0, json.dumps(vals))
+    if key not in _TBL2_FILES:
+        import openpyxl
+        from openpyxl.worksheet.table import Table
+        wb = openpyxl.Workbook()
+        one = wb.active
+        one.title = 'One'
+        two = wb.create_sheet('Two')
+        for ws, name, heads, swap in ((one, 'TblOne', ['Qty', 'Price', 'Total'], False),
+                                      (two, 'TblTwo', ['Price', 'Qty', 'Total'], True)):
+            for j, h in enumerate(heads):
+                ws.cell(r0, c0 + j, h)
+            for i, (q, p_) in enumerate(vals, start=1):
+                q2, p2 = (q, p_) if not swap else (q + 100, p_ + 1000)
+                ws.cell(r0 + i, c0 + (1 if swap else 0), q2)
+                ws.cell(r0 + i, c0 + (0 if swap else 1), p2)
+                ws.cell(r0 + i, c0 + 2, '=[@Qty]*2')
+            ws.add_table(Table(displayName=name, ref=f'{colname(c0)}{r0}:{colname(c0 + 2)}{r0 + len(vals)}'))
+        path = os.path.join(TMP, f'tbl2-{os.getpid()}-{len(_TBL2_FILES)}.xlsx')
+        wb.save(path)
+        _TBL2_FILES[key] = path
+    return _TBL2_FILES[key]
+
+
+def impl_tbl2(case):
+    """two tables at the same coordinates on two sheets: every first-evaluation order reads qty*2 of the cell's own table"""
+    from pycel import ExcelCompiler
+    (c0, r0), vals = case['geom'], case['vals']
+    addrs = [cell_addr(sh, c0 + 2, r0 + i) for sh in ('One', 'Two') for i in range(1, len(vals) + 1)]
+    want = [enc_out(q * 2) for q, _ in vals] + [enc_out((q + 100) * 2) for q, _ in vals]
+    comp = ExcelCompiler(filename=_tbl2_file(c0, r0, vals))
+    for t in case['order']:
+        if t == 'range':
+            for sh in ('Two', 'One'):
+                _raw_eval(comp, range_addr(sh, c0 + 2, r0 + 1, c0 + 2, r0 + len(vals)))
+        else:
+            _raw_eval(comp, addrs[t])
+    got = [_raw_eval(comp, a) for a in addrs]
+    fails = []
+    if got != want:
+        k = next(i for i, (x, y) in enumerate(zip(got, want)) if x != y)
+        fails.append((0, f'=[@Qty]*2 in {addrs[k]} (tables TblOne/TblTwo at the same coordinates on sheets One/Two) after '
+                         f'first evaluating {[addrs[t] if t != "range" else t for t in case["order"]]} reads '
+                         f'{core.show(got[k])}, the Qty cell of its own row doubled is {core.show(want[k])}'))
+    _ORACLE[json.dumps(case, sort_keys=True)] = fails
+    return ','.join(got)
+
+
 def impl_tbl(case):
+    if case.get('two'):
+        return impl_tbl2(case)
     form, (c0, r0), vals = case['form'], case['geom'], case['vals']
     fails = []
     key = (form, c0, r0, json.dumps(vals))
@@ -810,6 +866,10 @@ def tbl_cases(tier):
             for order in (orders[5], ['range']):
                 yield {'kind': 'tbl', 'tag': 'sametext', 'form': form, 'geom': [c0, r0], 'vals': vals, 'order': order,
                        'pre': [oc, orow, other], 'fresh': 0}
+    n = len(vals)
+    for (c0, r0) in geoms:
+        for order in ([0, n], [n, 0], [2 * n - 1, n - 1, 0, n], ['range'], [n, 'range']):
+            yield {'kind': 'tbl', 'tag': 'twosheets', 'two': 1, 'form': 0, 'geom': [c0, r0], 'vals': vals, 'order': order}
 
 
 # ---------------------------------------------------------------------------------------------------------------
@@ -952,7 +1012,7 @@ def oracles(results):
         for k, msg in _ORACLE.get(key, [])[:1]:
             yield r.case, f'op #{k}: {msg}'
         if r.case.get('kind') == 'tbl':
-            if not r.case.get('pre'):
+            if not r.case.get('pre') and not r.case.get('two'):
                 g = ('tbl', r.case['form'], json.dumps(r.case['geom']), json.dumps(r.case['vals']))
                 raw_groups.setdefault(g, []).append(r)
             continue
